@@ -168,6 +168,44 @@ func texts(part, parts int) {
 	}
 }
 
+// huge: lengths on both sides of every size at which the length field grows
+// (2^14, 2^21) and of 2^24, one text kind and sequencer data, one pattern.
+func huge() {
+	for _, n := range []int{16383, 16384, 2097151, 2097152, 2097153, 16777215, 16777216, 16777217} {
+		p := content(n, 1)
+		for _, tc := range textCtors[:2] {
+			ctx.Eval()
+			var m smf.Message
+			var got string
+			var ok bool
+			c := engine.Catch(func() { m = tc.mk(string(p)); ok = tc.get(m, &got) })
+			if c.Panicked {
+				report(c.Sig+":"+tc.name+":huge", tc.name, n, m[:min(len(m), 16)], "panicked: "+c.Value)
+				continue
+			}
+			if !wellFormed(tc.name, n, m, tc.typ, p) {
+				continue
+			}
+			if !ok || got != string(p) {
+				report("accessor:"+tc.name+":huge", tc.name, n, m[:16], fmt.Sprintf("accessor returns ok=%v and %d bytes for a text of %d bytes", ok, len(got), n))
+			}
+			ctx.NontrivialN(1)
+		}
+		ctx.Eval()
+		var m smf.Message
+		var got []byte
+		var ok bool
+		c := engine.Catch(func() { m = smf.MetaSequencerData(p); ok = m.GetMetaSeqData(&got) })
+		if c.Panicked {
+			report(c.Sig+":MetaSequencerData:huge", "MetaSequencerData", n, m[:min(len(m), 16)], "panicked: "+c.Value)
+			continue
+		}
+		if wellFormed("MetaSequencerData", n, m, 0x7F, p) && (!ok || !bytes.Equal(got, p)) {
+			report("accessor:MetaSequencerData:huge", "MetaSequencerData", n, m[:16], fmt.Sprintf("GetMetaSeqData returns ok=%v and %d bytes for %d bytes of data", ok, len(got), n))
+		}
+	}
+}
+
 // reuse: the same destination variable across several accessor calls (long,
 // short, medium, longer, empty-ish ...): each call must hand back its own data.
 func reuse() {
@@ -390,8 +428,9 @@ func main() {
 	ctx.Assume("time-signature clock fields are non-zero (zero is documented shorthand for 8); flat/sharp flag not judged for 0 accidentals; tempo payload within 1 of the 24-bit value")
 	ctx.Jobs("texts", 16, func(j int) { texts(j, 16) })
 	ctx.Jobs("numeric", 1, func(int) { numeric(); reuse() })
+	ctx.Jobs("huge", 1, func(int) { huge() })
 	ctx.Jobs("timesig", 16, func(j int) { timeSigs(j, 16) })
-	ctx.Jobs("keys", 1, func(int) { keys(); nilMasks() })
+	ctx.Jobs("keys", 1, func(int) { keys(); nilMasks(); ownership() })
 	ctx.Jobs("tempo", 16, func(j int) { tempos(j, 16) })
 	ctx.Jobs("concurrent", 1, func(int) { cp.Litmus(ctx); cp.Check(ctx, "meta", concCases()) })
 	ctx.Sample(map[string]interface{}{"constructor": "MetaSequencerData(200 bytes)", "expect": "FF 7F 81 48 + data; GetMetaSeqData returns the 200 bytes"})
